@@ -41,7 +41,8 @@ def apply_sar_adc(
     dtype = get_dtype(adc_bits)
     data_digitized_2d = np.zeros((num_rows, num_cols), dtype=dtype)
 
-    signal_normalized_2d = signal_2d.copy()
+    # Work on a double precision copy whatever the precision of the signal (e.g. float32)
+    signal_normalized_2d = np.array(signal_2d, dtype=float)
 
     # Set the reference voltage of the ADC to half the max
     ref: float = max_volt / 2.0
